@@ -1,5 +1,6 @@
 import SSV.Proofs.PipeStable
 import SSV.Proofs.PipeTerm
+import SSV.Proofs.PipeTermDL
 /-
 C15 — concrete runs of the model (witnesses that the hypotheses of the property theorems are satisfiable, and
 that the model can actually transfer data, half-close, time out).
@@ -90,5 +91,36 @@ theorem d4_reachable : Reachable d4 := by
 
 theorem d4_facts : d4.rdl.closed = true ∧ d4.thr 1 = .rSel (.read 4) 0 0 ∧ d4.thr 0 = .wSel [7] 0 0 0 ∧
     d4.thr 3 = .wLock [8] ∧ d4.mu = some 0 ∧ d4.done = false := by decide
+
+
+/-! …then thread 2 collects its result, sets a past WRITE deadline too and collects again: both expired -/
+def finishD (s : State) (i : Nat) : State := (finish s i).getD s
+theorem reach_finish {s : State} (r : Reachable s) (i : Nat) (h : (finish s i).isSome) : Reachable (finishD s i) := by
+  unfold finishD; cases hs : finish s i with
+  | none => simp [hs] at h
+  | some s' => exact .step r (.finish i hs)
+
+def d5 := step1 (step1 (startD (finishD d4 2) 2 (.setWD .past)) 2) 2
+def d6 := finishD d5 2
+
+theorem d6_reachable : Reachable d6 := by
+  refine reach_finish (reach_step1 (reach_step1 (reach_start (reach_finish d4_reachable 2 ?_) 2 _ ?_) 2 ?_) 2 ?_) 2 ?_ <;> decide
+
+theorem d6_bounded : Bounded 4 d6 := by
+  intro i hi
+  have h0 : i ≠ 0 := by omega
+  have h1 : i ≠ 1 := by omega
+  have h2 : i ≠ 2 := by omega
+  have h3 : i ≠ 3 := by omega
+  simp [d6, d5, d4, d3, d2, d1, finishD, finish, step1, startD, start, localSteps, init, State.setT, Op.entry, DL.set, DL.init,
+    h0, h1, h2, h3]
+
+theorem d6_expired : Expired d6 := by
+  refine ⟨by decide, by decide, ?_⟩
+  intro i
+  by_cases h : i < 4
+  · have : i = 0 ∨ i = 1 ∨ i = 2 ∨ i = 3 := by omega
+    rcases this with h | h | h | h <;> subst h <;> decide
+  · rw [d6_bounded i (by omega)]; rfl
 
 end SSV.Pipe.Ex
